@@ -2,6 +2,7 @@ package main
 
 import (
 	"fmt"
+	"regexp"
 	"go/ast"
 	"go/printer"
 	"go/token"
@@ -184,6 +185,7 @@ type FX struct {
 	axioms   []string
 	constArrs map[string]string
 	cwSeen   map[*ssa.Function]bool
+	known    map[string]bool
 }
 
 func (e *Engine) newFX(fn *ssa.Function, spec *FuncSpec) *FX {
@@ -225,12 +227,12 @@ func (fx *FX) entryFacts(name string, srt Sort, c string) {
 	case SSlice:
 		fx.ctx.Assert(fmt.Sprintf("(forall ((o Ref)) (! (=> (< (epoch o) %s) (and (< (epoch (sbase (select %s o))) %s) (>= (slen (select %s o)) 0) (>= (soff (select %s o)) 0))) :pattern ((select %s o))))", n0, c, n0, c, c, c))
 	}
-	if k2, v2, ok2 := splitArr(v); ok2 && k2 == SInt {
+	if k2, v2, ok2 := splitArr(v); ok2 {
 		switch v2 {
 		case SRef:
-			fx.ctx.Assert(fmt.Sprintf("(forall ((o Ref) (i Int)) (! (=> (< (epoch o) %s) (< (epoch (select (select %s o) i)) %s)) :pattern ((select (select %s o) i))))", n0, c, n0, c))
+			fx.ctx.Assert(fmt.Sprintf("(forall ((o Ref) (i %s)) (! (=> (< (epoch o) %s) (< (epoch (select (select %s o) i)) %s)) :pattern ((select (select %s o) i))))", k2, n0, c, n0, c))
 		case SIface:
-			fx.ctx.Assert(fmt.Sprintf("(forall ((o Ref) (i Int)) (! (=> (< (epoch o) %s) (< (epoch (iref (select (select %s o) i))) %s)) :pattern ((select (select %s o) i))))", n0, c, n0, c))
+			fx.ctx.Assert(fmt.Sprintf("(forall ((o Ref) (i %s)) (! (=> (< (epoch o) %s) (< (epoch (iref (select (select %s o) i))) %s)) :pattern ((select (select %s o) i))))", k2, n0, c, n0, c))
 		}
 	}
 }
@@ -308,9 +310,12 @@ func (fx *FX) addObl(kind, name, guard, goal string, pos token.Pos, note string)
 	if n := fx.names[full]; n > 1 {
 		full = fmt.Sprintf("%s#%d", full, n)
 	}
-	o := &Obligation{Func: fx.key, Name: full, Kind: kind, Guard: guard, Goal: goal, NAsserts: len(fx.ctx.asserts), Note: note}
+	o := &Obligation{Func: fx.key, Name: full, Kind: kind, Guard: guard, Goal: fx.residualGoal(goal), NAsserts: len(fx.ctx.asserts), Note: note}
 	if pos.IsValid() {
 		o.Pos = fx.eng.prog.Fset.Position(pos)
+	}
+	if o.Goal == "true" {
+		o.Verdict, o.Solver = "proved", "syntactic(identical to an assumed fact)"
 	}
 	fx.obls = append(fx.obls, o)
 	fx.ctx.Assert(Imp(guard, goal))
@@ -346,4 +351,42 @@ func normSpace(s string) string {
 		s = s[:100] + "…"
 	}
 	return s
+}
+
+// residualGoal drops the conjuncts of a goal that are literally among the unconditional facts (preconditions).
+func (fx *FX) residualGoal(goal string) string {
+	if fx.known == nil {
+		return goal
+	}
+	var rest []string
+	for _, c := range flattenAnd(goal) {
+		if !fx.known[canonBound(c)] {
+			rest = append(rest, c)
+		}
+	}
+	return And(rest...)
+}
+
+func (fx *FX) noteKnown(t string) {
+	if fx.known == nil {
+		fx.known = map[string]bool{}
+	}
+	for _, c := range flattenAnd(t) {
+		fx.known[canonBound(c)] = true
+	}
+}
+
+var boundRe = regexp.MustCompile(`!q[0-9]+`)
+
+// canonBound renames quantified variables (x!q17) by order of first occurrence, so alpha-equivalent copies compare equal.
+func canonBound(t string) string {
+	m := map[string]string{}
+	return boundRe.ReplaceAllStringFunc(t, func(s string) string {
+		if r, ok := m[s]; ok {
+			return r
+		}
+		r := fmt.Sprintf("!c%d", len(m))
+		m[s] = r
+		return r
+	})
 }
